@@ -308,9 +308,12 @@ func runC05(c *Ctx) {
 			var total ssa.Value
 			for _, b := range cp.Blocks {
 				if iff, isIf := b.Instrs[len(b.Instrs)-1].(*ssa.If); isIf {
-					if cmp, isCmp := iff.Cond.(*ssa.BinOp); isCmp && cmp.Op == token.EQL {
+					// received count == total / != total, either operand order
+					if cmp, isCmp := iff.Cond.(*ssa.BinOp); isCmp && (cmp.Op == token.EQL || cmp.Op == token.NEQ) {
 						if _, isPhi := cmp.X.(*ssa.Phi); isPhi {
 							total = cmp.Y
+						} else if _, isPhi := cmp.Y.(*ssa.Phi); isPhi {
+							total = cmp.X
 						}
 					}
 				}
